@@ -38,10 +38,15 @@ def OptOf(sort):
     if key not in _opt_cache:
         name = 'Opt_' + ''.join(ch if ch.isalnum() else '_' for ch in key)
         d = Datatype(name)
-        d.declare('Absent')
-        d.declare('Some', ('some_' + name, sort))
+        # constructor names are unique per sort: SMT-LIB cannot disambiguate overloaded datatype constructors
+        d.declare('Absent_' + name)
+        d.declare('Some_' + name, ('some_' + name, sort))
         dt = d.create()
         dt.v = getattr(dt, 'some_' + name)
+        dt.Absent = getattr(dt, 'Absent_' + name)
+        dt.Some = getattr(dt, 'Some_' + name)
+        dt.is_Some = getattr(dt, 'is_Some_' + name)
+        dt.is_Absent = getattr(dt, 'is_Absent_' + name)
         _opt_cache[key] = dt
     return _opt_cache[key]
 
